@@ -41,7 +41,7 @@ CHECKS.update({
 
 CHECKS.update({
     "C08": dict(cat="other", technique="decision-table extraction from Cython's typed tree (branch events, tail loops, scenario evaluation of the prelude) compared with the tables the set operations require; symbolic walk of the Python wrappers; declared-type and structure rules for the k-way merge",
-                text="The merge kernels touch element values only through a three-way comparison, so each has a finite decision table: per branch the emitted side and advanced cursors, the tail copies, the result for an empty operand or non-overlapping ranges, cache coherence of the cursor values, and output = filled prefix. These tables are extracted and compared with the ones intersection/union/difference require; the wrappers' None/empty table is enumerated over all 40 operand/flag scenarios; callers pass operands in the required order; the multi-way union is checked for a non-value exhaustion test, duplicate suppression, an empty-input guard and prefix-sum offsets.",
+                text="The merge kernels touch element values only through a three-way comparison, so each has a finite decision table: per branch the emitted side and advanced cursors, the tail copies, the result for an empty operand or non-overlapping ranges, cache coherence of the cursor values, and output = filled prefix. These tables are extracted and compared with the ones intersection/union/difference require; the wrappers' None/empty table is enumerated over all 40 operand/flag scenarios; callers pass operands in the required order; the multi-way union's loop is normalised to reset / scan / exit / emit / advance and the decision table of each part (cursor vs limit, marker vs reset value, head vs minimum; 12 + 2 + 6 cells) is compared with the required one, together with the layout of its flat buffers (concatenation, exclusive / inclusive prefix sums), the initial count, the returned prefix and the empty case; the C scalars caching element values are at least as wide as the elements.",
                 note="Declined: a functional-correctness proof of the merge loops over sequences. With C09 (bounds) and C07 (sorted inputs) the decided tables are every ingredient of the textbook argument. A kernel rewritten into another algorithm is UNDECIDED, never VIOLATED. Trusted: Cython front-end; required tables in sa/kernels.py.", ref="4 C08"),
 })
 
@@ -71,10 +71,10 @@ CHECKS.update({
 
 CHECKS.update({
     "C02": dict(cat="other", technique="differencing typestate over every ffunc reduce (per configuration), corner/cell agreement in the aggregate algebra, predicate extraction, taint + numeric-kind of the inferred extent, structural rule for the differencing routine",
-                text="Decides the structural conditions under which the reconstructed common cells are right: every region of every index-cube aggregate is differenced exactly once before it is trimmed/tested/returned (156 region x configuration instances); ffunc_count's corner values are the all-rows instances of its per-cell values; unweighted count reports missing exactly where the trimmed differenced count is zero; the inferred extent is max(entries, common)+1 in Python ints; the differencing routine writes margin - sum(uncommon) at the dimension's own common coordinate, axis by axis.",
+                text="Decides the structural conditions under which the reconstructed common cells are right: every region of every index-cube aggregate is differenced exactly once before it is trimmed/tested/returned (156 region x configuration instances); ffunc_count's corner values are the all-rows instances of its per-cell values; unweighted count reports missing exactly where the trimmed differenced count is zero; the inferred extent is max(entries, common)+1 in Python ints; the differencing routine writes margin - sum(uncommon) at the dimension's own common coordinate, axis by axis; the count region is a float region whenever weights are given.",
                 note="Declined: every cell equals the brute-force contingency count for all data (values). Relies on C14 (walk schema), C08 (exact intersection), C07 (well-formed indexes).", ref="4 C02"),
     "C03": dict(cat="other", technique="configuration-indexed partial evaluation (weights none/array/scalar x policy x format x arity x coordinates) + aggregate-algebra normal forms; sibling cross-check ffunc_X vs xfunc_X; NEP-50 numeric kind of inferred extents; def-use order in strided_dims",
-                text="For count / valid_count / sum / mean: the two constructors normalise to the same row arrays; for every region role each of the array cube's fill branches (no coordinates, bincount, bins - branches the tests never run) stores the reducer the index cube stores per cell, and every index-cube corner is the all-rows instance of its cell value (200+ comparisons); the missing-cell predicates agree; the array cube's inferred extents are Python ints; coordinates are widened before being multiplied by their stride.",
+                text="For count / valid_count / sum / mean: the two constructors normalise to the same row arrays; for every region role each of the array cube's fill branches (no coordinates, bincount, bins - branches the tests never run) stores the reducer the index cube stores per cell, and every index-cube corner is the all-rows instance of its cell value (200+ comparisons); the missing-cell predicates agree; the array cube's inferred extents are Python ints; coordinates are widened before being multiplied by their stride; per configuration a region that receives weight or fact values is never an integer region; strides are row-major, bins() yields one mask per cell, the flat coordinate is the sum of the strided slices.",
                 note="Declined: numerical agreement within 1e-9 (values). nansum is identified with sum on zero-filled arrays and .T pairs are ignored by the normaliser (recorded assumptions). A form the normaliser does not recognise is UNDECIDED.", ref="4 C03"),
     "C04": dict(cat="other", technique="predicate-table extraction from every reduce per configuration; def-use identity of the sentinel mask and the returned validity; integrality of counters in the aggregate algebra",
                 text="For both cube types, every shared aggregate, weight mode, policy and report format (300 configurations): the mask that selects missing cells is exactly valid==0 | missing!=0 (propagate), valid==0 (ignore), count==0 (unweighted count), with the weighted valid count behind `valid` for means only; in the pair format the returned validity is the negation of the very mask at which the sentinel return_missing_as[0] is written, and NaN and pair formats use the same mask; exact zero tests in the index cube act only on integral counters or after adjust_zeros(new=0).",
@@ -83,7 +83,7 @@ CHECKS.update({
                 text="Decides reachability facts that are necessary for encoding independence: marginal differencing writes at the differenced dimension's own common coordinate (the `0 instead of dim.common` mutant passes every test fixture); grand totals in the corner depend only on fact/weight arrays and the row count; walk, fill closures and reduce never compare a coordinate with an integer literal other than -1 and never read .common; shift_common stores the old common rows before deleting the new common's entries and before rebinding .common, per column in the 2-D branch.",
                 note="Declined: cell-by-cell invariance of every aggregate under re-encoding (values).", ref="4 C05"),
     "C18": dict(cat="other", technique="predicate extraction for stddev per configuration; sentinel-mask/validity identity; NaN-seeding normal forms of constructor fields; delegation-call table",
-                text="NARROW CLAIM (second sentence only). The stddev missing-cell mask contains valid<2 under both policies; for stddev, quantile, min, max, corrcoef, covariance the pair-format validity is the negation of the mask at which the sentinel is written and that mask is taken from the values before replacement; invalid rows (fact AND weight validity) are NaN-seeded in the constructors and ignore_missing selects by validity / uses nanquantile; each statistic delegates to the documented NumPy routine (quantile/nanquantile axis=0, amin/amax, corrcoef rowvar=False, cov(segment.T, aweights), N-1 divisor); the weighted quantile under propagation is dominated by a whole-segment missing test (R-C18-e).",
+                text="NARROW CLAIM (second sentence only). The stddev missing-cell mask contains valid<2 under both policies; for stddev, quantile, min, max, corrcoef, covariance the pair-format validity is the negation of the mask at which the sentinel is written and that mask is taken from the values before replacement; invalid rows (fact AND weight validity) are NaN-seeded in the constructors and ignore_missing selects by validity / uses nanquantile; each statistic delegates to the documented NumPy routine (quantile/nanquantile axis=0, amin/amax, corrcoef rowvar=False, cov(segment.T, aweights), N-1 divisor); the weighted quantile under propagation is dominated by a whole-segment missing test (R-C18-e). Structure of the statistics themselves (first sentence, necessary conditions only): stddev dispatches per column, scales the variance by 1/(N-1) (unweighted) or N/(N-1) (weighted), multiplies the squared deviations by the weights and stores one square root per branch; min / max store a value together with validity True under the same guards, for non-empty cells that are all-valid (propagate) or after selecting valid rows (ignore); every branch of quantile / corrcoef / covariance (with and without coordinates, weighted or not) stores its NumPy result with axis=0 / rowvar=False / segment.T; a per-column validity is reduced to complete rows over the column axis; negative quantile weights are zeroed.",
                 note="Declined, loudly: per-cell numerical equality with the textbook statistic (floating point).", ref="4 C18"),
 })
 
